@@ -71,14 +71,27 @@ def expected(links, walk):
     return spell(walk)
 
 
+LINE_ORDER = [0]  # 0: S lines then L lines; 1: L lines first; 2: every segment followed by the links declared from it
+
+
 def gfa_lines(nodes, links, extra=()):
-    lines = ["H\tVN:Z:1.0\n"]
-    for n in nodes:
-        lines.append("S\t%s\t%s\tLN:i:%d\n" % (n, SEQ[n], len(SEQ[n])))
-    for (u, du, v, dv) in links:
-        lines.append("L\t%s\t%s\t%s\t%s\t0M\n" % (u, du, v, dv))
-    lines.extend(extra)
-    return lines
+    sl = ["S\t%s\t%s\tLN:i:%d\n" % (n, SEQ[n], len(SEQ[n])) for n in nodes]
+    ll = ["L\t%s\t%s\t%s\t%s\t0M\n" % l for l in links]
+    if LINE_ORDER[0] == 1:
+        body = ll + sl
+    elif LINE_ORDER[0] == 2:
+        body = []
+        used = set()
+        for n, s_ in zip(nodes, sl):
+            body.append(s_)
+            for i, l in enumerate(links):
+                if l[0] == n and i not in used:
+                    used.add(i)
+                    body.append(ll[i])
+        body += [ll[i] for i in range(len(links)) if i not in used]
+    else:
+        body = sl + ll
+    return ["H\tVN:Z:1.0\n"] + body + list(extra)
 
 
 ALL_LINKS2 = [(u, du, v, dv) for u in "ab" for du in "+-" for v in "ab" for dv in "+-"]
@@ -124,6 +137,7 @@ def build(params):
         pre = ["0 <= l2 <= 16 and 0 <= x <= 1 and 0 <= ox <= 1 and 0 <= y <= 1 and 0 <= oy <= 1"]
 
         def case(l2, x, ox, y, oy):
+            LINE_ORDER[0] = params["link"] % 3
             links = [link1]
             second = pick(l2, ALL_LINKS2 + [None])
             if second is not None:
@@ -149,6 +163,7 @@ def build(params):
             pre.append("0 <= n%d <= %d and 0 <= o%d <= 1 and 0 <= v%d <= 3" % (i, len(pool) - 1, i, i))
 
         def case(*a):
+            LINE_ORDER[0] = ("abc".index(n0) + (1 if o0 == "<" else 0)) % 3
             walk = [(o0, n0)]
             links = []
             for i in range(nsteps - 1):
@@ -181,6 +196,7 @@ def build(params):
         pre = [" and ".join("0 <= p%d <= %d" % (i, (len(menu) - 1) if i < count else 0) for i in range(3))]
 
         def case(p0, p1, p2):
+            LINE_ORDER[0] = (count + params["fasta"]) % 3
             FP = M["FP"]
             e = stubs.env()
             e.files["g.gfa"] = stubs.MFile("text", gfa_lines("abc", LINKS), None)
@@ -207,6 +223,7 @@ def build(params):
         pre = ["0 <= p0 <= %d and 0 <= fa <= 1" % (len(MENU) - 1)]
 
         def case(p0, fa):
+            LINE_ORDER[0] = 2
             FP = M["FP"]
             e = stubs.env()
             e.files["g.gfa"] = stubs.MFile("text", gfa_lines("abc", LINKS), None)
@@ -232,6 +249,14 @@ def replay(params, model, wd):
     LINKS = [("a", "+", "b", "+"), ("b", "+", "c", "-"), ("c", "+", "a", "+"), ("b", "-", "b", "+")]
     MENU = [">a>b", "<b<a", ">a>b<c", ">c>a", ">a>c", "<a<c", ">b>b", "<b>b", ">a", "<c>b", ">b<c<a"]
     fasta = False
+    if kind == "step":
+        LINE_ORDER[0] = params["link"] % 3
+    elif kind in ("walk", "walk4"):
+        LINE_ORDER[0] = ("abc".index(params["first"][1]) + (1 if params["first"][0] == "<" else 0)) % 3
+    elif kind == "file":
+        LINE_ORDER[0] = (params["count"] + params["fasta"]) % 3
+    else:
+        LINE_ORDER[0] = 2
     reqs = []
     if kind == "step":
         links = [ALL_LINKS2[params["link"]]]
